@@ -287,7 +287,7 @@ def main():
         "wall_s": round(wall, 2),
         "violations": len(violations),
     }
-    if not a.replay:
+    if not a.replay and not a.no_coq:
         with open(os.path.join(VERIF, "evidence", pid + ".json"), "w") as f:
             json.dump(ev, f, indent=1)
     print("check %s tier=%s seed=%d: %d cases (%d distinct non-trivial), %d/%d obligations, %d disagreement(s), %d known finding(s) hit, %.1fs" % (
